@@ -493,11 +493,11 @@ func TestC17(t *testing.T) {
 	if !regress(t, "C17") {
 		return
 	}
-	c17Sub.rapidCheck(t, pickTier(10000, 30000), func(rt *rapid.T) c17Case {
+	c17Sub.rapidCheck(t, pickTier(10000, 100000), func(rt *rapid.T) c17Case {
 		return c17Case{Source: rapid.SampledFrom([]string{"NewSession", "Mail", "Rcpt", "Data"}).Draw(rt, "source"), D: c17GenDecision(rt),
 			Via: rapid.SampledFrom([]string{"wire", "client"}).Draw(rt, "via"), BDAT: rapid.Bool().Draw(rt, "bdat"),
 			Limit: rapid.SampledFrom([]string{"", "", "exact", "above"}).Draw(rt, "limit"),
 			Prior: rapid.SampledFrom([]string{"", "", "", "bdat-failed-chunk", "bdat-rset", "bdat-ok", "data-refused"}).Draw(rt, "prior"),
-			Helo: rapid.IntRange(0, 3).Draw(rt, "helo") == 0, SendMail: rapid.IntRange(0, 2).Draw(rt, "sendmail") == 0}
+			Helo:  rapid.IntRange(0, 3).Draw(rt, "helo") == 0, SendMail: rapid.IntRange(0, 2).Draw(rt, "sendmail") == 0}
 	})
 }
